@@ -104,6 +104,78 @@ func init() {
 			ex.setBool("c11StoreSkipsExpired", contains(ss, "if now.After(expirationTime) { return }") && contains(ss, "c.m.Set(key, e)"), true,
 				"Cache.Store: a value that is already expired is not stored")
 		}
+		// ---- elems are written only where they are created: Get reads an elem after the shard lock is released
+		if f := ex.file(crel); f != nil {
+			fields := map[string]bool{}
+			ast.Inspect(f, func(n ast.Node) bool {
+				if ts, ok := n.(*ast.TypeSpec); ok && ts.Name.Name == "elem" {
+					if st, ok := ts.Type.(*ast.StructType); ok {
+						for _, fl := range st.Fields.List {
+							for _, nm := range fl.Names {
+								fields[nm.Name] = true
+							}
+						}
+					}
+				}
+				return true
+			})
+			isElemField := func(e ast.Expr) bool {
+				for {
+					switch x := e.(type) {
+					case *ast.ParenExpr:
+						e = x.X
+						continue
+					case *ast.IndexExpr:
+						e = x.X
+						continue
+					case *ast.SelectorExpr:
+						return fields[x.Sel.Name]
+					}
+					return false
+				}
+			}
+			writes, literals, others := 0, 0, 0
+			isElemType := func(e ast.Expr) bool { s := ex.str(e); return s == "elem" || strings.HasPrefix(s, "elem[") }
+			ast.Inspect(f, func(n ast.Node) bool {
+				switch x := n.(type) {
+				case *ast.AssignStmt:
+					for _, l := range x.Lhs {
+						if isElemField(l) {
+							writes++
+						}
+					}
+				case *ast.IncDecStmt:
+					if isElemField(x.X) {
+						writes++
+					}
+				case *ast.UnaryExpr:
+					if x.Op.String() == "&" && isElemField(x.X) {
+						writes++ // a pointer to a field: it could be written through
+					}
+				case *ast.CompositeLit:
+					if x.Type != nil && isElemType(x.Type) {
+						literals++
+					}
+				case *ast.CallExpr:
+					if id, ok := x.Fun.(*ast.Ident); ok && id.Name == "new" && len(x.Args) == 1 && isElemType(x.Args[0]) {
+						others++ // an elem that is not filled where it is created has to be filled later
+					}
+				}
+				return true
+			})
+			ast.Inspect(f, func(n ast.Node) bool {
+				if as, ok := n.(*ast.AssignStmt); ok {
+					for _, l := range as.Lhs {
+						if _, ok := l.(*ast.StarExpr); ok {
+							others++ // `*e = elem{...}` would overwrite a whole elem: no store through a pointer at all in this file
+						}
+					}
+				}
+				return true
+			})
+			ex.setBool("c11ElemsWrittenOnlyAtCreation", len(fields) == 2 && writes == 0 && others == 0 && literals == 1, true,
+				"pkg/cache: the fields of an elem are set only in the composite literal that creates it (one site, in Store); no assignment to, or pointer to, an elem field, no `new(elem)`, no store through a pointer anywhere in cache.go")
+		}
 		if fd := ex.fn(crel, "Cache", "gc"); fd != nil {
 			ss := stmtStrings(ex, fd.Body)
 			ex.setBool("c11GcRemovesExpired", contains(ss, "return nil, false, now.After(v.expirationTime), nil") && contains(ss, "_ = c.m.RangeDo(f)"), true,
